@@ -68,6 +68,9 @@ func nextStringArrayArguments(cmd string, name string, args Arguments) ([]string
 	if !errors.Is(err, proto.ErrEOM) {
 		return nil, newMissingArgumentError(cmd, name, err)
 	}
+	if len(strs) == 0 {
+		return nil, newMissingArgumentError(cmd, name, err)
+	}
 	return strs, nil
 }
 
